@@ -1216,6 +1216,8 @@ RULES = [
     Rule('C01.T5', 'NaN/infinity arms of each _round_at: enabled -> special, no substitute -> raise, substitute -> value', t5_special_arms, 30, 'T,S'),
     Rule('C01.X1', 'every match over a rounding enum is exhaustive or refuses; unhandled overflow modes rejected at construction', x1_enum_exhaustive, 14, 'X'),
     Rule('C01.P1', 'every path from an out-of-range test to a return sets overflow and inexact on the returned value', p1_truthful_flags, 4, 'P'),
+    Rule('C01.P5', 'no context returns a finite non-zero operand without going through the rounding call: the neighbour is chosen in one place, for all eight modes (= C17.P3)',
+         lambda ctx: __import__('sa.props.c17', fromlist=['p3_round_reached']).p3_round_reached(ctx), 15, 'P'),
     Rule('C01.T8', 'a NaN / infinity substitute is accepted by a constructor only if the format built from the same parameters holds it', t8_substitutes_are_members, 8, 'T,S'),
     Rule('C01.T7', 'the value an overflow saturates to is defined for both signs (a range without negative values saturates to zero)', t7_saturation_value, 2, 'T'),
     Rule('C01.P4', 'the flags of a result are those of this rounding: a re-wrapped value comes out of the rounding call, or the result states its flags', p4_flags_of_this_rounding, 8, 'P'),
